@@ -2579,6 +2579,16 @@ orc_neon_emit_shift(OrcCompiler *const p, int type,
     ORC_COMPILER_ERROR(p, "shift too large");
     return;
   }
+  if (shift == 0 && immshift_info[type].negate) {
+    /* the immediate of a right shift is 1..bits: '#0' is not an instruction
+     * (the field would read as a shift by the full width).  Shifting by
+     * nothing is a move. */
+    if (is_quad)
+      orc_neon_emit_mov_quad (p, *dest, *src);
+    else
+      orc_neon_emit_mov (p, *dest, *src);
+    return;
+  }
   if (p->is_64bit) {
     code = immshift_info[type].code64;
     ORC_ASM_CODE(p, "  %s %s, %s, #%d\n", immshift_info[type].name64,
